@@ -171,3 +171,30 @@ package atree
 //@   before Writer.Write#1: bit(h[1], 6) == (exists k :: 0 <= k && k < len(a.elements) && refIn(a.elements[k]))
 //@   before Writer.Write#1: bit(h[0], 1) == (a.next != SlabIDUndefined)
 //@   modifies heap
+
+//@ # map leaf: version 1, kind map-data or collision-group, root / reference / next / any-size flags from the slab's fields
+//@ func (m *MapDataSlab) Encode(enc) (err)  serves C07
+//@   requires enc != nil && m.elements != nil
+//@   before Writer.Write#1: h != nil && h[0] / 16 == 1 && h[1] % 32 == ite(m.collisionGroup, 11, 8)
+//@   before Writer.Write#1: bit(h[1], 7) == (m.extraData != nil)
+//@   before Writer.Write#1: bit(h[1], 6) == esref(m.elements)
+//@   before Writer.Write#1: bit(h[1], 5) == m.anySize
+//@   before Writer.Write#1: bit(h[0], 1) == (m.next != SlabIDUndefined)
+//@   modifies heap
+
+//@ # index slabs: version 1, kind array-meta / map-meta, root flag = has extra data, no other flag
+//@ func (a *ArrayMetaDataSlab) Encode(enc) (err)  serves C07
+//@   requires enc != nil
+//@   before Writer.Write#1: h != nil && h[0] == 16 && h[1] % 128 == 1 && bit(h[1], 7) == (a.extraData != nil)
+//@   modifies heap
+
+//@ func (m *MapMetaDataSlab) Encode(enc) (err)  serves C07
+//@   requires enc != nil
+//@   before Writer.Write#1: h != nil && h[0] == 16 && h[1] % 128 == 9 && bit(h[1], 7) == (m.extraData != nil)
+//@   modifies heap
+
+//@ # large-value slab: version 1, kind storable, never size-limited, never root, reference flag = the value holds a reference
+//@ func (s *StorableSlab) Encode(enc) (err)  serves C07
+//@   requires enc != nil
+//@   before Writer.Write#1: h != nil && h[0] == 16 && h[1] % 32 == 31 && bit(h[1], 5) && !bit(h[1], 7) && bit(h[1], 6) == refIn(s.storable)
+//@   modifies heap
